@@ -1,9 +1,26 @@
 # C13 spec (see tools/props.py)
 SPEC = {
-        "ready": False,
+        "ready": True,
         "sources": ["c13.cpp", "c13_xform.cpp", "c13_closest.cpp",
                     "c13_sets_short.cpp", "c13_sets_int.cpp", "c13_sets_int64.cpp", "c13_sets_float.cpp", "c13_sets_double.cpp",
                     "c13_hist_short.cpp", "c13_hist_int.cpp", "c13_hist_int64.cpp", "c13_hist_float.cpp", "c13_hist_double.cpp"],
         "lib": [],
+        "technique": "exhaustive small-scope enumeration (every lattice box incl. inverted x every lattice point / box pair) against a bitset-of-points oracle, "
+                     "explicit-state BFS over extendBy histories on the real objects, exact integer/rational corner images for the four transform overloads",
+        "level_text": "Every Box/Interval over the coordinates {0..3} per axis (inverted ones included) and the canonical empty/infinite boxes, for the element types "
+                      "short/int/int64/float/double and for Interval, Box<Vec2>, Box<Vec3>, Box<Vec4> and the generic Box template instantiated in 2-D/3-D through a harness "
+                      "vector type, is run through every query against the set of lattice points it contains; extendBy(point)/extendBy(box) histories are explored breadth-first "
+                      "on the real objects until no new state appears (so all history lengths are covered for the alphabet); clip/closestPoint* are compared with the exact nearest "
+                      "point; transform/affineTransform (4 overloads, out-parameter forms pre-filled) are compared with the exact images of the 8 corners.",
+        "level_note": "Bounded scope: coordinates are small integers (exactly representable in every element type), so rounding inside Box itself is not exercised; transforms are "
+                      "checked for integer affine matrices (exact) and small-integer projective matrices with w>0 on the box (2 ulp). extendBy minimality is asserted from "
+                      "default/makeEmpty/non-inverted boxes with non-inverted or canonical-empty arguments only.",
         "deadline": {"quick": 200, "thorough": 850},
+        "rule": "exhaustive: all 16^D (min,max) boxes x all 6^D points, all ordered box pairs, BFS over extendBy to a fixpoint, all listed matrices x 1000 boxes; non-trivial = by a "
+                "predicate on the input the box is inverted / flat / a single point / canonical empty or infinite, the pair has an inverted operand or touches only on the boundary or "
+                "overlaps, majorAxis has a tie, the extendBy step starts from the empty set / lowers min / raises max / has an empty argument, the point is outside / on the boundary "
+                "(clip, closestPointOnBox: strictly inside, on the surface, equidistant faces, empty box), the matrix block is zero/sparse/full or has a negative entry (Arvo's a>=b "
+                "branch), the matrix is projective, the input box is empty or infinite ('.generic' classes excluded)",
+        "assumptions": ["lattice coordinates are small integers, exactly representable in every element type",
+                        "projective matrices are restricted to w > 0 on all corners of the box"],
     }
